@@ -54,6 +54,14 @@ def rebuild_site(ctx: Ctx, fi: FunctionInfo, cls_fq: str, ordinal: int, source: 
     p = ctx.p
     fields = p.records()[cls_fq]
     cons = record_constructions(ctx, fi, cls_fq)
+    if source.startswith("@"):
+        # "@loop:<iterable>" -> the target of the for-loop over that name
+        from .common import for_loops
+        it = source.split(":", 1)[1]
+        tg = [lp.target.id for lp in for_loops(fi) if isinstance(lp.iter, ast.Name) and lp.iter.id == it and isinstance(lp.target, ast.Name)]
+        if len(tg) != 1:
+            raise AnalysisError(f"{fi.fq}: loop over '{it}' not found (rebuild source)")
+        source = tg[0]
     repl = [c for c in calls(fi) if isinstance(c.func, ast.Attribute) and c.func.attr == "_replace" and isinstance(c.func.value, ast.Name) and c.func.value.id == source]
     short = cls_fq.rsplit(".", 1)[-1]
     if ordinal > len(cons):
@@ -215,7 +223,7 @@ def _enum_tests(ctx: Ctx, fi: FunctionInfo) -> Dict[str, List[Tuple[ast.Compare,
     return out
 
 
-def enum_dispatch(ctx: Ctx, fq: str, subject: str, fallthrough: Optional[Dict[str, str]] = None) -> None:
+def enum_dispatch(ctx: Ctx, fq: str, subject: str, fallthrough: Optional[Dict[str, str]] = None, enum_cls: Optional[str] = None) -> None:
     """Every member of the enum the option *subject* is compared against is handled in *fq*:
     tested explicitly, or covered by a raise reachable when every tested member is excluded, or listed in *fallthrough*."""
     p = ctx.p
@@ -223,6 +231,12 @@ def enum_dispatch(ctx: Ctx, fq: str, subject: str, fallthrough: Optional[Dict[st
     cfg = ctx.cfg(fi)
     tests = _enum_tests(ctx, fi)
     key = norm(ast.parse(subject, mode="eval").body)
+    if key not in tests and enum_cls is not None:
+        # the subject is a local: identify the chain by the enum class its members belong to
+        cands = [k for k, items_ in tests.items() if all(m.cls == enum_cls for _, ms, _ in items_ for m in ms)]
+        if len(cands) == 1:
+            key = cands[0]
+            subject = src(tests[key][0][2])
     if key not in tests:
         raise AnalysisError(f"{fq}: no comparison of '{subject}' with an enum member found (dispatch vanished)")
     items = tests[key]
